@@ -277,8 +277,17 @@ def run_lines(exe, lines, timeout=1800, env=None):
     return res, note
 
 
+PANIC_MESSAGES = {}   # result text -> panic message of the last implementation run (what an uncaught panic would print)
+
+
 def run_impl(lines, timeout=1800):
-    return run_lines(os.path.join(BUILD, "spgdrive"), lines, timeout, env=GOENV)
+    res, note = run_lines(os.path.join(BUILD, "spgdrive"), lines, timeout, env=GOENV)
+    for k, v in list(res.items()):
+        i = v.rfind(" pmsg=")
+        if i >= 0:
+            res[k] = v[:i]
+            PANIC_MESSAGES[(k, v[:i])] = unhx(v[i + 6:])
+    return res, note
 
 
 def run_model(lines, timeout=1800):
